@@ -20,6 +20,9 @@ CHECKS = {
  'C05': ('model_checking', 'symbolic execution of clang LLVM IR of every derived inverse pair composed in one wrapper; z3 nlsat decides the identity over the positive reals and a 16-ulp bound under the standard rounding model; per-relation accuracy by solver-checked local error lemmas',
          'About 475 inverse pairs derived from the constructor signatures of the current tree are composed, executed symbolically in all three numeric types and shown to return the original argument exactly over the reals and within 16 ulps for multiplicative compositions; every relation on its own is within 8 ulps of its own exact formula; planar/3-D embeddings are the identity on bits.',
          'standard model of rounding (no overflow/underflow); compositions containing a sum or difference are ill-conditioned by construction (heat-capacity family) and are decided per step + exact identity, as DESIGN.md explains; composition of local lemmas trusted', '3 C05'),
+ 'C01': ('model_checking', 'symbolic execution of clang LLVM IR of both conversion legs of every unit (and static pairs); z3 nlsat bounds the result, under the standard rounding model, against the exact affine map an independent unit-symbol expander (O-unit) derives from the unit\'s own abbreviation',
+         'All 514 units x 2 legs x 3 numeric types plus static unit pairs are executed symbolically from clang IR and shown to be within 8 (16 for pairs) ulps of the exact SI factor (rational times a power of pi) and offset that O-unit computes from the unit\'s own symbol, for all real inputs and all admissible rounding errors; standard-unit legs are the identity on bits.',
+         'standard model of rounding (no overflow/underflow); O-unit conventions (SI 2019 / NIST SP 811); clang constant folding is part of the analysed code; glibc pow with constant arguments accurate to one ulp (long double only)', '3 C01'),
 }
 NA = {}
 def main():
